@@ -446,6 +446,8 @@ OPS = {"proto": ops_proto, "fsm": ops_fsm, "bits": ops_bits, "intervals": ops_in
 def search(pid, tier):
     """returns (mismatches, nops, note): mismatches = list of (op line, reply)"""
     L = LINKS[pid]
+    # the driver takes the specifications from proof-free copies of the link modules (tools/gen_specs.py): it builds also when a link proof is broken
+    subprocess.run([sys.executable, os.path.join(vlib.VERIF, "tools", "gen_specs.py")], stdout=subprocess.DEVNULL, stderr=subprocess.DEVNULL)
     ok, log = vlib.lake_build(["cfundriver"])
     drv = vlib.driver_path("cfundriver")
     if not ok or not os.path.exists(drv):
@@ -461,10 +463,13 @@ def search(pid, tier):
     for o, l in zip(ops, out):
         if l == "bad-op":
             continue
-        parts = dict(p.split("=", 1) for p in l.split(" ") if "=" in p)
-        if parts.get("model") == "-":
+        if not l.startswith("gen=") or " model=" not in l:
+            bad.append((o, l))
             continue
-        if parts.get("gen") != parts.get("model"):
+        g, m = l[4:].split(" model=", 1)         # the two sides may contain blanks (sockets, traces of calls)
+        if m == "-":
+            continue
+        if g != m:
             bad.append((o, l))
     return bad, len(ops), ""
 
